@@ -190,6 +190,11 @@ class Exec(object):
             t = {'pda_epsilon_closure_max_iterations': INT, 'enable_logging': BOOL}.get(e.attr)
             if t is None: raise Unsupported('GambaTools.%s' % e.attr)
             return SV(t, z3.Const('GambaTools_' + e.attr, sort_of(t)))
+        if isinstance(e.value, ast.Name) and e.value.id == 'string' and 'string' not in p.env and e.attr == 'ascii_uppercase':
+            # a str constant of the standard library used as an iterable: the list of its characters (distinct literal atoms)
+            u = T.upper(); r = u['list']
+            self.literal_lists[str(r.z)] = [self.atom_const(ch) for ch in u['chars']]
+            return r
         o = self.ev(p, e.value)
         if o.t.kind == 'rec':
             if e.attr not in RECORDS[o.t.args[0]]: raise Unsupported('field %s of %s' % (e.attr, o.t))
@@ -362,6 +367,7 @@ class Exec(object):
         if t.kind == 'opt' and v.t == t.args[0]: return SV(t, parts(t)[2](v.z))
         if t.kind == 'opt' and v.t == NONE: return SV(t, parts(t)[1])
         if t == WORD and v.t == ATOM: return SV(WORD, Word.snoc(Word.nil, v.z))
+        if t == TEXT and v.t == ATOM: return fresh('text', TEXT)          # a string constant used as a message: texts are opaque
         if self.spec_mode and v.t.kind == 'opt' and v.t.args[0] == t: return SV(t, parts(v.t)[3](v.z))      # spec only: the value held by an Optional (meaningful under `x is not None`)
         if t.kind == 'map' and v.t.kind == 'map' and t.args[:2] == v.t.args[:2]: return SV(t, v.z)      # dict / defaultdict: same content
         raise Unsupported('cannot use %s as %s' % (v.t, t))
@@ -1064,6 +1070,14 @@ class Exec(object):
                 self.oblig(p, 'pop-nonempty:%d' % e.lineno, 'safety', n > 0, e.lineno)
                 nv = mk_list(o.t, n - 1, arr); res = SV(et, Select(arr, n - 1))
             elif name == 'clear': nv = mk_list(o.t, IntVal(0), arr); res = None
+            elif name == 'insert' and len(args) == 2 and args[0].t == INT:
+                # list.insert(k, x) for an index inside the list (Python clamps other indices; that case is not modelled and made an obligation)
+                k = args[0].z; av = self.coerce(args[1], et).z; arr2 = fresh_z('arr', arr.sort()); i_ = fresh_z('i', z3.IntSort())
+                self.oblig(p, 'insert-index:%d' % e.lineno, 'safety', And(0 <= k, k <= n), e.lineno)
+                p.pc.append(Select(arr2, k) == av)
+                p.pc.append(ForAll([i_], Implies(i_ < k, Select(arr2, i_) == Select(arr, i_)), patterns=[Select(arr2, i_)]))
+                p.pc.append(ForAll([i_], Implies(i_ > k, Select(arr2, i_) == Select(arr, i_ - 1)), patterns=[Select(arr2, i_)]))
+                nv = mk_list(o.t, n + 1, arr2); res = None
             else: raise Unsupported('list.%s' % name)
         elif o.t.kind == 'map':
             if name == 'clear':
